@@ -263,6 +263,12 @@ type c17In struct {
 	// context and against the peers (other matches: other list contents, other named keys)
 	Peers []c17Peer `json:"peers,omitempty"`
 	Iter  int       `json:"iterations,omitempty"`
+	// sequence step: ONE compiled expression is evaluated on History (in order) and then on this
+	// context; the observed value is the one of that last evaluation.  The value of a compiled
+	// expression on a context must not depend on earlier evaluations.
+	History []c17Peer `json:"history,omitempty"`
+	Step    int       `json:"step,omitempty"`
+	NoOpt   bool      `json:"no_optimize,omitempty"` // NewStdKeyBuilderEx(false): stages are not constant-folded
 }
 type c17Peer struct {
 	Matches []string          `json:"matches_hex"`
@@ -339,7 +345,7 @@ func c17Compile(in *c17In) (cp *compiled, out c17Out) {
 	_, ok, note := guarded(func() string {
 		// compile errors are deliberately ignored: the builder stays usable and its stages then yield
 		// the error marker (e.g. <EMPTY> for an empty @split delimiter), which is what the model predicts
-		kb, _ = stdlib.NewStdKeyBuilder().Compile(out.Template)
+		kb, _ = stdlib.NewStdKeyBuilderEx(!in.NoOpt).Compile(out.Template)
 		return ""
 	}, 60*time.Second)
 	if !ok || kb == nil {
@@ -480,6 +486,26 @@ func c17Tags(in *c17In) (tags []string, nontrivial bool) {
 	if len(in.Peers) > 0 {
 		add("shared-state-probe")
 		nontrivial = true
+	}
+	if in.NoOpt {
+		add("no-optimize")
+	}
+	if in.Step > 0 || len(in.History) > 0 {
+		add("sequence-step")
+		nontrivial = true
+		empty := true
+		for _, m := range in.History[0].Matches {
+			empty = empty && m == ""
+		}
+		if empty && len(in.History[0].Keys) == 0 {
+			add("sequence:empty-context-first")
+		}
+		for _, h := range in.History {
+			if fmt.Sprint(h.Matches, h.Keys) == fmt.Sprint(in.Matches, in.Keys) {
+				add("sequence:context-seen-before")
+				break
+			}
+		}
 	}
 	in.Expr.walk(func(x *Expr, inSub bool) {
 		add("uses:" + x.Op)
@@ -626,7 +652,9 @@ func c17Case(in *c17In, out c17Out) Case {
 		E *Expr
 		M []string
 		K map[string]string
-	}{in.Expr, in.Matches, in.Keys})
+		H []c17Peer
+		N bool
+	}{in.Expr, in.Matches, in.Keys, in.History, in.NoOpt})
 	return Case{Coq: coq, Desc: map[string]any{"input": in, "impl": out}, Key: string(kb), Nontrivial: nt, Tags: tags}
 }
 
@@ -1142,6 +1170,184 @@ func probeExpr(r *Rng) *Expr {
 	}
 }
 
+// ---------------------------------------------------------------- sequences on one compiled expression
+// The extractor compiles an expression once and evaluates it for every match.  A group is one
+// expression whose arguments come from the match ({0}.. and named keys) and a sequence of 6-9
+// contexts: optionally an all-empty context first (like the optimiser's probe), then 3-5 base contexts
+// repeated and permuted (same start/stop with different increments, same list again, ...).  Every step
+// is a case: input = (expression, that context), observed = what the shared compiled expression
+// returned at that step.  The model knows nothing of the history, so any memory in the
+// implementation shows as a disagreement with a failing input that carries the history.
+
+func peerOf(ms []string, ks map[string]string) c17Peer { return c17Peer{Matches: ms, Keys: ks} }
+
+func hxs(xs ...string) []string {
+	out := make([]string, len(xs))
+	for i, x := range xs {
+		out[i] = hx(x)
+	}
+	return out
+}
+
+func seqGroup(r *Rng) (e *Expr, base []c17Peer, allowEmpty bool) {
+	allowEmpty = true
+	sp := func(a *Expr, d string) *Expr { return &Expr{Op: "@split", S: hx(d), Args: []*Expr{a}} }
+	jn := func(a *Expr, d string) *Expr { return &Expr{Op: "@join", S: hx(d), Args: []*Expr{a}} }
+	nbase := r.Range(3, 5)
+	switch r.Intn(10) {
+	case 0, 1, 2: // @range with dynamic start / stop / increment
+		rng := fn("@range", arg(0), arg(1), arg(2))
+		switch r.Intn(8) {
+		case 0, 1:
+			e = rng
+		case 2:
+			e = fn("@len", rng)
+		case 3:
+			e = jn(rng, ",")
+		case 4: // the increment is the element of an enclosing @map, the bounds are keys of the match
+			e = fn("@map", arg(3), jn(fn("@range", key("k"), key("lim"), arg(0)), ","))
+		case 5:
+			e = fn("@filter", rng, fn("not", fn("eq", arg(0), key("k"))))
+		case 6:
+			e = &Expr{Op: "@select", I: int64(r.Range(-3, 3)), Args: []*Expr{rng}}
+		default:
+			e = fn("@reduce", rng, fn("sumi", arg(0), arg(1)))
+		}
+		start, stop := r.Range(-5, 5), 0
+		up := r.Bool()
+		if up {
+			stop = start + r.Range(0, 12)
+		} else {
+			stop = start - r.Range(0, 12)
+		}
+		for v := 0; v < nbase; v++ {
+			st, sp2 := start, stop
+			if v == nbase-1 && r.Bool() { // one context with other bounds
+				st += r.Range(1, 3)
+			}
+			incr := r.Range(1, 4)
+			if !up {
+				incr = -incr
+			}
+			incrs := []string{}
+			for i, k := 0, r.Range(1, 4); i < k; i++ {
+				x := r.Range(1, 4)
+				if !up {
+					x = -x
+				}
+				incrs = append(incrs, fmt.Sprint(x))
+			}
+			sIncr := fmt.Sprint(incr)
+			if r.Chance(1, 12) {
+				sIncr = Pick(r, []string{"0", "x", "", fmt.Sprint(-incr)})
+			}
+			base = append(base, peerOf(hxs(fmt.Sprint(st), fmt.Sprint(sp2), sIncr, strings.Join(incrs, "\x00")),
+				map[string]string{hx("k"): hx(fmt.Sprint(st)), hx("lim"): hx(fmt.Sprint(sp2)), hx("name"): hx("n" + fmt.Sprint(v))}))
+		}
+	case 3, 4, 5: // @select / @slice / @len / @in / {@ ..} / @split / @join: the list comes from the match
+		d := Pick(r, []string{",", ":", "::", "aa", ", ", "é", "ab"})
+		switch r.Intn(10) {
+		case 0:
+			e = &Expr{Op: "@select", I: int64(r.Range(-4, 4)), Args: []*Expr{arg(0)}}
+		case 1, 2:
+			e = &Expr{Op: "@slice", I: int64(r.Range(-5, 4)), J: int64(r.Range(-1, 4)), Args: []*Expr{arg(0)}}
+		case 3:
+			e = fn("@len", arg(0))
+		case 4:
+			e = fn("@in", arg(1))
+			for i, k := 0, r.Range(1, 4); i < k; i++ {
+				e.Set = append(e.Set, hx(Pick(r, []string{"a", "b", "ab", "1", "2", "é", "x y"})))
+			}
+		case 5:
+			e = &Expr{Op: "arr", B: r.Bool(), Args: []*Expr{arg(0), arg(1), fn("@len", arg(0))}}
+		case 6:
+			e = sp(arg(2), d)
+		case 7:
+			e = jn(arg(0), d)
+		case 8:
+			e = jn(sp(arg(2), d), Pick(r, []string{"+", d}))
+		default:
+			e = &Expr{Op: "@slice", I: int64(r.Range(-3, 2)), J: int64(r.Range(-1, 3)), Args: []*Expr{sp(arg(2), d)}}
+		}
+		for v := 0; v < nbase; v++ {
+			l := genList(r)
+			el := Pick(r, []string{"a", "b", "ab", "1", "2", "é", "x y", ""})
+			if len(l) > 0 && r.Bool() {
+				el = Pick(r, l)
+			}
+			base = append(base, peerOf(hxs(strings.Join(l, "\x00"), el, strings.Join(l, d)),
+				map[string]string{hx("k"): hx(el)}))
+		}
+	default: // @map / @filter / @reduce / @for and nestings, bodies reading {0}/{1} and keys of the match
+		e = probeExpr(r)
+		e.walk(func(x *Expr, _ bool) {
+			if x.Op == "@for" && hasKey(x.Args[1]) {
+				allowEmpty = false // an empty {lim} makes the loop run to the cap: a million rounds per step
+			}
+		}, false)
+		for v := 0; v < nbase; v++ {
+			ms, ks := probeCtx(r, r.Intn(probeContexts))
+			base = append(base, peerOf(ms, ks))
+		}
+	}
+	return
+}
+
+func c17SeqGroup(r *Rng) []*c17In {
+	e, base, allowEmpty := seqGroup(r)
+	var seq []c17Peer
+	if allowEmpty && r.Bool() {
+		empty := make([]string, len(base[0].Matches))
+		seq = append(seq, peerOf(empty, map[string]string{}))
+	}
+	for _, i := range []int{0, 1, 0} { // every base context once at least, one of them again later
+		seq = append(seq, base[i%len(base)])
+	}
+	for i := 2; i < len(base); i++ {
+		seq = append(seq, base[i])
+	}
+	for k := r.Range(1, 3); k > 0; k-- {
+		b := Pick(r, base)
+		seq = append(seq, b)
+		if r.Chance(1, 3) {
+			seq = append(seq, b) // the same context twice in a row
+		}
+	}
+	noOpt := r.Bool()
+	var group []*c17In
+	for j, c := range seq {
+		group = append(group, &c17In{Expr: e, Matches: c.Matches, Keys: c.Keys, W: 1, NoOpt: noOpt, Step: j,
+			History: append([]c17Peer(nil), seq[:j]...)})
+	}
+	return group
+}
+
+// evaluates one compilation of the group's expression over the whole sequence; a step whose value differs
+// from the case's own (fresh compile, single evaluation) value gets the sequence's value as its observable
+func c17SeqApply(ins []*c17In, outs []c17Out, idx []int) {
+	cp, out := c17Compile(ins[idx[0]])
+	if cp == nil {
+		for _, i := range idx {
+			outs[i].Completed, outs[i].Out, outs[i].Note = false, "", "sequence: "+out.Note
+		}
+		return
+	}
+	for j, i := range idx {
+		ctx := ins[i].ctx()
+		s, ok, note := guarded(func() string { return cp.kb.BuildKey(ctx) }, 60*time.Second)
+		got := hex.EncodeToString([]byte(s))
+		switch {
+		case !ok:
+			outs[i].Completed, outs[i].Out = false, ""
+			outs[i].Note = fmt.Sprintf("step %d of a sequence on one compiled expression: %s", j, note)
+			return // a hung evaluation keeps running: stop using this builder
+		case !outs[i].Completed || got != outs[i].Out:
+			outs[i].Note = fmt.Sprintf("step %d of a sequence on one compiled expression returned %s; a fresh compilation evaluated once returns %s (%s)", j, got, outs[i].Out, outs[i].Note)
+			outs[i].Completed, outs[i].Out = true, got
+		}
+	}
+}
+
 const probeContexts = 4
 
 func c17ProbeGroup(r *Rng) []*c17In {
@@ -1272,6 +1478,7 @@ func c17Gen(r *Rng, n int, tier string) []Case {
 		if len(g.in.Expr.tmplTop()) > 600 {
 			continue
 		}
+		g.in.NoOpt = r.Chance(1, 4)
 		ins = append(ins, g.in)
 		heavy = append(heavy, false)
 	}
@@ -1312,6 +1519,17 @@ func c17Gen(r *Rng, n int, tier string) []Case {
 		}
 		groups = append(groups, idx)
 	}
+	// sequences on one compiled expression
+	var seqs [][]int
+	sr := r.Fork()
+	for k := 0; k < n/25; k++ {
+		var idx []int
+		for _, in := range c17SeqGroup(sr) {
+			idx = append(idx, len(ins))
+			ins, heavy = append(ins, in), append(heavy, false)
+		}
+		seqs = append(seqs, idx)
+	}
 	cps := make([]*compiled, len(ins))
 	outs := make([]c17Out, len(ins))
 	for i, in := range ins {
@@ -1320,6 +1538,9 @@ func c17Gen(r *Rng, n int, tier string) []Case {
 	c17Concurrent(r.Fork(), cps, outs, ins, heavy)
 	for _, idx := range groups {
 		c17ProbeApply(ins, cps, outs, idx)
+	}
+	for _, idx := range seqs {
+		c17SeqApply(ins, outs, idx)
 	}
 	cases := make([]Case, len(ins))
 	for i := range ins {
@@ -1338,7 +1559,8 @@ func main() {
 			"delimiters of 0-4 bytes incl. multi-byte runes and self-overlapping ones; indices/lengths in [-n-3, n+3]; sub-expressions over {0} {1} {2..} {-1} named keys literals and eq/not/if/prefix/len/sumi/concatenation nested to depth 3, incl. helpers nested inside a sub-expression; " +
 			"each compiled expression is evaluated once sequentially and then 3 times from each of 1-8 goroutines concurrently with all other cases of the run (any differing result fails the case). " +
 			"shared-state probes: n/30 groups of 4 cases with ONE compiled expression (@map/@filter/@reduce/@for and nestings whose sub-expressions read {0}/{1} twice and a named key of the enclosing match) and 4 different contexts (different list contents, different keys); 8 goroutines evaluate the shared compiled expression simultaneously, each against its own context, 2000-4000 times, and every result must equal the sequential result for that context. " +
-			"distinct = distinct (expression, match groups, keys); non-trivial = a list of >= 2 elements, a negative or out-of-range index, a multi-byte delimiter, a named key or nested helper inside a sub-expression.",
+			"sequences: n/25 groups of 6-9 cases with ONE compiled expression (optimised or NewStdKeyBuilderEx(false)) whose arguments come from the match (@range with dynamic start/stop/increment also inside @map, @select/@slice/@len/@in/{@ ..}/@split/@join of a list from the match, @map/@filter/@reduce/@for bodies) evaluated over a sequence of contexts (optionally an all-empty context first, then 3-5 base contexts repeated and permuted: same bounds with another increment, same list again); the observable of step j is what the shared compiled expression returned at step j and must equal the model's value for that context alone; a quarter of the ordinary cases is compiled without the optimiser. " +
+			"distinct = distinct (expression, match groups, keys, history); non-trivial = a list of >= 2 elements, a negative or out-of-range index, a multi-byte delimiter, a named key or nested helper inside a sub-expression.",
 		Gen: c17Gen,
 		Replay: func(d json.RawMessage) (Case, error) {
 			var doc struct {
@@ -1379,6 +1601,23 @@ func main() {
 						}
 					}
 				}
+			}
+			if len(in.History) > 0 {
+				// rebuild the sequence: the history contexts, then this one, on one compilation
+				seqIns := []*c17In{}
+				seqOuts := []c17Out{}
+				for j, h := range in.History {
+					hin := &c17In{Expr: in.Expr, Matches: h.Matches, Keys: h.Keys, W: 1, NoOpt: in.NoOpt, Step: j}
+					_, ho := c17Run(hin)
+					seqIns, seqOuts = append(seqIns, hin), append(seqOuts, ho)
+				}
+				seqIns, seqOuts = append(seqIns, in), append(seqOuts, outs[0])
+				idx := make([]int, len(seqIns))
+				for i := range idx {
+					idx[i] = i
+				}
+				c17SeqApply(seqIns, seqOuts, idx)
+				outs[0] = seqOuts[len(seqOuts)-1]
 			}
 			return c17Case(in, outs[0]), nil
 		},
